@@ -6,7 +6,7 @@
 //! panic / no panic, gradient presence, tracked flags); the parent diffs the f32 log against the log the f64 build
 //! produces for the same seed - any difference means the float width changed shapes, tracking or acceptance.
 
-use super::{c01, c02, c03, c04, c05, c06, c07, c09, c13, c14, c15, c16, c17, CheckDef};
+use super::{c01, c02, c03, c04, c05, c06, c07, c09, c10, c11, c12, c13, c14, c15, c16, c17, CheckDef};
 use crate::ctx::{Ctx, Tier};
 use crate::rng::Rng;
 
@@ -14,7 +14,7 @@ pub static DEF: CheckDef = CheckDef {
     id: "C19",
     families,
     run_case,
-    rule: "the families of C01-C07, and additionally of C09, C13, C14, C15, C16, C17 (quick sizes; thorough: a tenth of their thorough \
+    rule: "the families of C01-C07, and additionally of C09-C17 (quick sizes; thorough: a tenth of their thorough \
            sizes) executed by the f32 build under the f32 comparison rule, plus an offline diff of per-case metadata \
            logs between the f64 and the f32 build. Non-trivial / distinct: as defined by the underlying check for \
            each family.",
@@ -26,7 +26,7 @@ pub static DEF: CheckDef = CheckDef {
     ],
 };
 
-const INNER: [(&str, &CheckDef); 13] = [
+const INNER: [(&str, &CheckDef); 16] = [
     ("C01", &c01::DEF),
     ("C02", &c02::DEF),
     ("C03", &c03::DEF),
@@ -36,6 +36,9 @@ const INNER: [(&str, &CheckDef); 13] = [
     ("C07", &c07::DEF),
     // beyond the C01-C07 spaces named by the property: the monitors whose oracles involve values or acceptance
     ("C09", &c09::DEF),
+    ("C10", &c10::DEF),
+    ("C11", &c11::DEF),
+    ("C12", &c12::DEF),
     ("C13", &c13::DEF),
     ("C14", &c14::DEF),
     ("C15", &c15::DEF),
